@@ -27,12 +27,15 @@
 (*   Dev_EmptyArrayTruthy [] not falsy (inverted section not rendered)      Dev_NoStandalone no standalone stripping   *)
 (*   Dev_NoIndent standalone partial not indented    Dev_DepthOffByOne limit 99      Dev_CloseNotChecked {{#a}}{{/b}} ok *)
 (*   Dev_InnermostOnly no context-stack walk          Dev_PartialEager partials resolved even when skipped             *)
+(*   Dev_CrlfBlankIndented a blank "\r\n" line of a standalone partial's source is indented - this one IS the real       *)
+(*   engine's behaviour (observation, X17.meta.json): Emit2 prints the prediction with it as well (field dout)            *)
 EXTENDS MustacheOps, Json
 
 CONSTANTS Families,            \* family name -> [a |-> alphabet (set of lexeme names), n |-> MaxLen, r |-> set of resolver flags]
           MaxHeavy,            \* at most this many deep-nesting / recursive lexemes per template (they are expensive to evaluate)
           Dev_NoEscape, Dev_EscapeRaw, Dev_ZeroFalsy, Dev_EmptyArrayTruthy, Dev_NoStandalone, Dev_NoIndent, Dev_DepthOffByOne,
-          Dev_CloseNotChecked, Dev_InnermostOnly, Dev_PartialEager
+          Dev_CloseNotChecked, Dev_InnermostOnly, Dev_PartialEager,
+          Dev_CrlfBlankIndented      \* OBSERVED in the real engine (see MustacheOps!Indent); the trace oracle reports it as OBS
 
 VARIABLES fam, lex, res
 vars == <<fam, lex, res>>
@@ -42,6 +45,7 @@ F == (IF Dev_NoEscape THEN {"NoEscape"} ELSE {}) \cup (IF Dev_EscapeRaw THEN {"E
      \cup (IF Dev_NoStandalone THEN {"NoStandalone"} ELSE {}) \cup (IF Dev_NoIndent THEN {"NoIndent"} ELSE {})
      \cup (IF Dev_DepthOffByOne THEN {"DepthOffByOne"} ELSE {}) \cup (IF Dev_CloseNotChecked THEN {"CloseNotChecked"} ELSE {})
      \cup (IF Dev_InnermostOnly THEN {"InnermostOnly"} ELSE {}) \cup (IF Dev_PartialEager THEN {"PartialEager"} ELSE {})
+     \cup (IF Dev_CrlfBlankIndented THEN {"CrlfBlankIndented"} ELSE {})
 
 Init == fam \in DOMAIN Families /\ lex = <<>> /\ res \in Families[fam].r
 \* a sequence that can no longer become a valid template (it is still a case)
@@ -51,10 +55,10 @@ Hopeless(ls) == LET ts == Expand(ls)
                    \/ \E i \in 1..Len(rd) : rd[i].k = "close"
                    \/ Len(rd) > DepthMax
 Heavy == {"D99", "D100", "D101", "Pdp", "Pd99", "Prec", "Pmut"}
-Emit(x) == /\ Len(lex) < Families[fam].n /\ ~Hopeless(lex)
-           /\ x \in Heavy => Cardinality({i \in 1..Len(lex) : lex[i] \in Heavy}) < MaxHeavy
+Emit(x) == /\ x \in Heavy => Cardinality({i \in 1..Len(lex) : lex[i] \in Heavy}) < MaxHeavy
            /\ lex' = Append(lex, x) /\ UNCHANGED <<fam, res>>
-Next == \E x \in Families[fam].a : Emit(x)
+Next == /\ Len(lex) < Families[fam].n /\ ~Hopeless(lex)
+        /\ \E x \in Families[fam].a : Emit(x)
 Spec == Init /\ [][Next]_vars
 
 Impl == Eval(lex, res, F)
@@ -73,11 +77,13 @@ BalanceAgrees == LET raw == Expand(lex) IN
 OnlyUnclosed == LET ts == Expand(lex) IN
                 /\ \A i \in 1..Len(ts) : ts[i].k \notin {"broken", "setdelim"}
                 /\ LET rd == Reduce(Struct(ts)) IN rd # <<>> /\ \A i \in 1..Len(rd) : rd[i].k # "close"
-Emit2 == LET a == Abs IN
-         /\ Assert((\A i \in 1..Len(lex) : Lx[lex[i]].k \in {"text", "ws", "nl"}) => a = [err |-> FALSE, out |-> Text(lex), calls |-> <<>>],
-                   <<"LiteralCopied", lex>>)
-         /\ Assert((a.err => a.out = "") /\ (~res => a.calls = <<>>), <<"ErrorIsClean", lex>>)
-         /\ (Len(lex) > 2 /\ OnlyUnclosed) \/ PrintT(ToJson([fam |-> fam, lex |-> lex, res |-> res, err |-> a.err, out |-> a.out, calls |-> a.calls]))
+Emit2 == \/ Len(lex) > 2 /\ OnlyUnclosed
+         \/ LET a == Abs IN
+            /\ Assert((\A i \in 1..Len(lex) : Lx[lex[i]].k \in {"text", "ws", "nl"}) => a = [err |-> FALSE, out |-> Text(lex), calls |-> <<>>],
+                      <<"LiteralCopied", lex>>)
+            /\ Assert((a.err => a.out = "") /\ (~res => a.calls = <<>>), <<"ErrorIsClean", lex>>)
+            /\ PrintT(ToJson([fam |-> fam, lex |-> lex, res |-> res, err |-> a.err, out |-> a.out, calls |-> a.calls,
+                               dev |-> Eval(lex, res, KnownDevs) # a]))
 
 \* printed once by checks/X17.py (TLC evaluates the ASSUME of a generated module): the vocabulary
 Tables == [lexemes |-> [x \in DOMAIN LxAll |-> [k |-> LxAll[x].k, nm |-> LxAll[x].nm, path |-> LxAll[x].path, txt |-> LxAll[x].txt]],
